@@ -888,6 +888,7 @@ def run(ctx, res):
     nested_half(res)
     dotdata_half(res)
     changed_before_update_half(res)
+    full_queue_feedback_half(res)
 
     res.failures.sort(key=lambda f: (case_size(f["case"]) if "steps" in f["case"]
                                      else (1, nodes(f["case"]["value"])) if "value" in f["case"] else (1, 1)))
@@ -1168,6 +1169,70 @@ def changed_before_update_half(res):
                 return
 
 
+# ------------------------------------------------------------------------------------------------------------
+# a BOUNDED receiver whose queue is full when the producer / forwarder feed an event back: whatever the receiver does
+# with it (refuse, queue later), an event whose data the validator rejects reaches no subscriber
+def full_queue_feedback_case(spec, data, route):
+    from bobocep.cep.engine.receiver.receiver import BoboReceiver
+    from bobocep.cep.engine.receiver.pubsub import BoboReceiverSubscriber
+    from bobocep.cep.gen.event_id import BoboGenEventIDUnique
+    from bobocep.cep.gen.timestamp import BoboGenTimestampEpoch
+    validator = make_validator(spec)
+
+    class Rec(BoboReceiverSubscriber):
+        def __init__(self):
+            self.events = []
+
+        def on_receiver_update(self, event):
+            self.events.append(event)
+    r = BoboReceiver(validator=validator, gen_event_id=BoboGenEventIDUnique("t"), gen_timestamp=BoboGenTimestampEpoch(),
+                     gen_event=None, max_size=1)
+    rec = Rec()
+    r.subscribe(rec)
+    filler = "ok"           # accepted by both validators used here; it fills the queue
+    try:
+        r.add_data(filler)
+    except Exception:       # noqa
+        pass
+    ev = wrap("complex" if route == "producer" else "action", data, "fb1", 5)
+    try:
+        if route == "producer":
+            r.on_producer_update(ev, True)
+        else:
+            r.on_forwarder_update(ev)
+    except Exception:       # noqa (a full queue may refuse with an error)
+        pass
+    for _ in range(3):
+        try:
+            r.update()
+        except Exception:   # noqa
+            pass
+    for e in rec.events:
+        if e is ev or getattr(e, "data", None) is data:
+            try:
+                ok = bool(validator.is_valid(e))
+            except Exception:   # noqa
+                ok = False
+            if not ok:
+                return ("receiver with max_size=1 and a full queue: the %s fed back a %s event whose data %r the validator (%s) "
+                        "rejects, and it reached the subscribers" % (route, type(ev).__name__, data, spec[0]))
+    return None
+
+
+def full_queue_feedback_half(res):
+    for spec, data in ((("jsonable",), {"k": b"\x00"}), (("jsonable",), {1, 2}), (("type", ["str"], False), 123)):
+        for route in ("producer", "forwarder"):
+            try:
+                bad = full_queue_feedback_case(spec, data, route)
+            except KeyError:
+                continue
+            res.note_case(("full-queue-feedback", repr(spec), route), True)
+            if bad:
+                res.failures.append(dict(signature="rejected-data-became-event", what=bad, detail=None,
+                                         case=dict(full_queue_feedback=[list(spec), route, repr(data)])))
+                return
+
+
 def show(o):
     evs = o["events"]
     return "verdict=%s published=%d%s%s" % (
@@ -1179,6 +1244,12 @@ def show(o):
 
 
 def replay(obj):
+    if (obj.get("case") or {}).get("full_queue_feedback"):
+        sp, route, drepr = obj["case"]["full_queue_feedback"]
+        table = {repr({"k": b"\x00"}): {"k": b"\x00"}, repr({1, 2}): {1, 2}, "123": 123}
+        bad = full_queue_feedback_case(tuple(sp), table[drepr], route)
+        print(bad or "nothing the validator rejects reached a subscriber (the full receiver refused or dropped the event)")
+        return 1 if bad else 0
     if (obj.get("case") or {}).get("changed_before_update"):
         w, pz = obj["case"]["changed_before_update"]
         bad = changed_before_update_case(w, pz)
